@@ -26,7 +26,7 @@ CHECKS = {
  "C10": ("exploration", "§6 C10", "deterministic simulation of the full stack with hostile clients: attack grammar on 1-3 connections concurrently with 1-2 control connections; worker process survival observed by the supervisor",
          "Hostile connections send a prefix of well-formed commands on their own keys and then one malformed item (random bytes, non-command RESP, unknown command, wrong arity, non-bulk arguments, non-UTF-8 keys, truncated frames, absurd or overflowing lengths, numbers beyond offset 18, arrays nested 2..65536 deep (262144 in the thorough tier)). Handler tasks run on simulated threads with tokio's 2 MiB stacks, so stack exhaustion kills the worker process as in production and is reported with its seed. Oracles: process alive, control replies equal the model, a fresh connection is served at the end, the store holds per hostile connection a prefix of its well-formed commands and no foreign key, no control connection is closed."),
  "C11": ("exploration", "§6 C11", "deterministic simulation of the full stack: 2-4 scripted clients on separate connections under seeded schedules and network timing; per-key linearizability (Wing-Gong) of request/reply stamps incl. per-connection order",
-         "3-12 single-key SET/GET/DEL per client over 2-3 shared keys, closed loop or pipelined (window <= 3), unique values, W in {1,2,4} runtime workers, every command on its own blocking thread, small file limits, merges by a harness thread or the store's timer, disk latency. invoke = stamp when the last request byte was accepted by the transport, return = stamp when the last reply byte was read; each key's history plus a final read must be linearizable; every request gets exactly one well-formed reply; no connection is closed by the server."),
+         "3-12 single-key SET/GET/DEL per client over 2-3 shared keys, closed loop or pipelined (window <= 3; a third of the clients pipeline 4-8 deep, mostly reading one key), unique values, W in {1,2,4} runtime workers, every command on its own blocking thread, small file limits, merges by a harness thread or the store's timer, disk latency. invoke = stamp when the last request byte was accepted by the transport, return = stamp when the last reply byte was read; each key's history plus a final read must be linearizable, with each connection's own request order kept in the search even where its pipelined requests overlap in time; every request gets exactly one well-formed reply; no connection is closed by the server."),
  "C12": ("exploration", "§6 C12", "deterministic simulation: recovery of the closed directory with and without hint files, differential oracle",
          "The closed directory is materialised twice from the recorded shadow, once with every *.hint removed; both are opened with the real open and every key of the universe and on disk must read identically."),
  "C13": ("exploration", "§6 C13", "deterministic simulation: data-file sizes around every merge vs. independent size formula and ground-truth scan",
